@@ -905,7 +905,8 @@ class XsdElement(XsdComponent, ParticleMixin,
             xsd_element._set_type(xsd_type)
 
         # Collect field values for identities that refer to this XSD element.
-        for identity in tuple(self.selected_by):
+        # A set iteration depends on memory addresses: use a stable order for errors
+        for identity in sorted(self.selected_by, key=lambda x: x.name):
             try:
                 counter = context.identities[identity]
             except KeyError:
